@@ -555,7 +555,7 @@ theorem step_cascade (st : St) (op : Op) (hw : WFL st.dts) (hl : 0 < st.lastStat
       · unfold updateDt
         apply step_map_same _ _ (ite_facts id (removeDt now) (fun d => by simp [removeDt])) _ hw
         exact both_updateDt sr.refl _ _ _ (fun d hd hr => sr.remove d (hw.2.2 d hd) hr)
-  | pump now =>
+  | pump now f =>
     simp only [preModel, step]
     have h1 := step_map_same (now := now) (fireCleanup now) st.dts (fireCleanup_facts now)
       (both_fireCleanup sr st.dts hw.2.2) hw
@@ -720,7 +720,7 @@ theorem link_step (st : St) (op : Op) (hnd : (idsOf st.dts).Nodup) (he : AllC (f
       have : st.lastStateChange ≤ max (max p.start now) st.lastStateChange := Int.le_max_right _ _
       omega
     | result s te now => have := hop.1; show te ≠ 0; omega
-    | pump now => trivial
+    | pump now f => trivial
     | remove id u now => trivial
     | setPaused b now => trivial
   intro x' hx' htb
@@ -788,7 +788,7 @@ theorem link_step (st : St) (op : Op) (hnd : (idsOf st.dts).Nodup) (he : AllC (f
               rw [hy']
               simp [live, rk'.1, live_id hpl, rk'.2, live_not_removed hpl]
     | result s te now => exact absurd hx hxs
-    | pump now => exact absurd hx hxs
+    | pump now f => exact absurd hx hxs
     | remove id u now => exact absurd hx hxs
     | setPaused b now => exact absurd hx hxs
 
@@ -812,7 +812,7 @@ theorem mem_preModel (st : St) (op : Op) {d : Dt} (h : d ∈ st.dts) : d ∈ pre
     · exact h
     · exact List.mem_append_left _ h
   | result s te now => exact h
-  | pump now => exact h
+  | pump now f => exact h
   | remove id u now => exact h
   | setPaused b now => exact h
 
@@ -886,7 +886,7 @@ theorem chkCascade_model (sp : SpecSt) (st : St) (op : Op) (hrel : RelS sp st) (
               have : sd.id = p.id := by rw [v.1, rx.1]; rfl
               simp [isAddOf, hrc, this] at hadd
         | result s te now => exact hx
-        | pump now => exact hx
+        | pump now f => exact hx
         | remove id u now => exact hx
         | setPaused b now => exact hx
       have hxtb : x.trigBy = sd.trigBy := by rw [v.2.2.2.2.2.1, rx.2.2.2.2.2.2.1]
